@@ -81,9 +81,18 @@ func (h *indexedHeap) removeInternal(realIdx int) (string, uint) {
 	return x.key, x.bytes
 }
 
-// Remove entry by index
-func (h *indexedHeap) remove(idx int) (string, uint) {
-	return h.removeInternal(h.indices[idx])
+// Remove entry by index. The index comes from the stored item, and an item need not have been stored by this
+// instance of the middleware: an external storage keeps what an earlier process stored (or another instance
+// shares it). Such an item has no record here; nothing is removed then, least of all another key's record.
+func (h *indexedHeap) remove(idx int, key string) (string, uint) {
+	if idx < 0 || idx >= len(h.indices) {
+		return "", 0
+	}
+	realIdx := h.indices[idx]
+	if realIdx >= len(h.entries) || h.entries[realIdx].key != key {
+		return "", 0
+	}
+	return h.removeInternal(realIdx)
 }
 
 // Remove entry with lowest expiration time
